@@ -2,6 +2,7 @@
    Abstract state: a proven lower bound `known` on len(data), a flag `prog` ("len(data) has strictly
    decreased since the start of the current loop body"), and facts about variables:
      FLo x c : c <= x        FHi x c : x <= c        FRel x a c : a*x + c <= len(data)
+     FCond x c k : x > c -> k <= len(data)      (made where two branches join: one bounded x by c, the other proved len >= k)
    chk returns the abstract state after the statement (None: control never falls through) and the list
    of unproved requirements (site, code, need, have).  safe_prog ps p = true iff that list is empty.
    Codes: 1 need len(data) >= need (have: known)     2 need a bound on a variable-dependent index
@@ -16,18 +17,18 @@ From LLRP Require Import DecIR.IR.
 Import ListNotations.
 Open Scope Z_scope.
 
-Inductive fact : Type := FLo (x c : Z) | FHi (x c : Z) | FRel (x a c : Z).
+Inductive fact : Type := FLo (x c : Z) | FHi (x c : Z) | FRel (x a c : Z) | FCond (x c k : Z).
 Record astate : Type := mkA { known : Z; prog : bool; facts : list fact }.
 Definition fail : Type := (Z * Z * Z * Z)%type.   (* site, code, need, have *)
 
-Definition fact_var (f : fact) : Z := match f with FLo x _ | FHi x _ | FRel x _ _ => x end.
+Definition fact_var (f : fact) : Z := match f with FLo x _ | FHi x _ | FRel x _ _ | FCond x _ _ => x end.
 Definition fact_eqb (f g : fact) : bool :=
   match f, g with
   | FLo x c, FLo y d | FHi x c, FHi y d => (x =? y) && (c =? d)
-  | FRel x a c, FRel y b d => (x =? y) && (a =? b) && (c =? d)
+  | FRel x a c, FRel y b d | FCond x a c, FCond y b d => (x =? y) && (a =? b) && (c =? d)
   | _, _ => false
   end.
-Definition is_rel (f : fact) : bool := match f with FRel _ _ _ => true | _ => false end.
+Definition is_rel (f : fact) : bool := match f with FRel _ _ _ | FCond _ _ _ => true | _ => false end.
 
 Definition omax (a : option Z) (b : Z) : option Z := match a with Some x => Some (Z.max x b) | None => Some b end.
 Definition omin (a : option Z) (b : Z) : option Z := match a with Some x => Some (Z.min x b) | None => Some b end.
@@ -142,6 +143,18 @@ Fixpoint derive (all fs : list fact) (k : Z) : Z :=
   end.
 Definition derive_known (A : astate) : astate := set_known A (derive (facts A) (facts A) (known A)).
 
+(* a <> b where b is the constant c and c is the proven lower bound of a: a >= c+1 *)
+Definition learn_ne (A : astate) (a b : expr) : astate :=
+  match b with
+  | EConst c =>
+      match a with
+      | ELen => if known A =? c then set_known A (c + 1) else A
+      | EVar x => match lo_of (facts A) x with Some l => if l =? c then add_fact A (FLo x (c + 1)) else A | None => A end
+      | _ => A
+      end
+  | _ => A
+  end.
+
 Definition assume (c : cond) (pol : bool) (A : astate) : astate :=
   derive_known
   match c with
@@ -152,7 +165,7 @@ Definition assume (c : cond) (pol : bool) (A : astate) : astate :=
       | CGt, true | CLe, false => learn_le A b a 1
       | CGe, true | CLt, false => learn_le A b a 0
       | CEq, true | CNe, false => learn_le (learn_le A a b 0) b a 0
-      | _, _ => A
+      | CEq, false | CNe, true => learn_ne A a b
       end
   end.
 
@@ -171,11 +184,34 @@ Definition reslice_state (A : astate) (e : expr) : astate :=
       (prog A || ge1 A e)
       (filter (fun f => negb (is_rel f)) (facts A)).
 
+(* facts FCond x c k for every upper bound x <= c of the side that has the smaller `known`, k the other side's *)
+Fixpoint conds (fs : list fact) (k : Z) : list fact :=
+  match fs with
+  | nil => nil
+  | FHi x c :: r => FCond x c k :: conds r k
+  | _ :: r => conds r k
+  end.
+
 Definition join (o1 o2 : option astate) : option astate :=
   match o1, o2 with
   | None, o | o, None => o
   | Some a, Some b => Some (mkA (Z.min (known a) (known b)) (prog a && prog b)
-                                (filter (fun f => existsb (fact_eqb f) (facts b)) (facts a)))
+                                ((if known a <? known b then conds (facts a) (known b) else nil)
+                                 ++ (if known b <? known a then conds (facts b) (known a) else nil)
+                                 ++ filter (fun f => existsb (fact_eqb f) (facts b)) (facts a)))
+  end.
+
+(* entering `case v` of `switch e`: e = v *)
+Fixpoint case_known (fs : list fact) (x v k : Z) : Z :=
+  match fs with
+  | nil => k
+  | FCond y c n :: r => case_known r x v (if (y =? x) && (c <? v) then Z.max k n else k)
+  | _ :: r => case_known r x v k
+  end.
+Definition learn_case (A : astate) (e : expr) (v : Z) : astate :=
+  match e with
+  | EVar x => set_known A (case_known (facts A) x v (known A))
+  | _ => A
   end.
 
 Definition top : astate := mkA 0 false [].
@@ -226,7 +262,7 @@ Section Check.
         (join (fst r1) (fst r2), f0 ++ snd r1 ++ snd r2)
     | SSwitch site e cs d =>
         let f0 := expr_fails A site e in
-        let r1 := chkc cur cs A in
+        let r1 := chkc cur e cs A in
         let r2 := chkb cur d A in
         (join (fst r1) (fst r2), f0 ++ snd r1 ++ snd r2)
     | SLoop site l c body =>
@@ -245,7 +281,9 @@ Section Check.
                                  ++ req (prove_le_len A h 0) (len_fail A site h 0)
                      | None => req (prove_le_len A lo 0) (len_fail A site lo 0)
                      end in
-        (Some (after_fails f0 A (match hi with Some h => oz (upper A h) | None => oz (upper A lo) end)), f0)
+        (Some (if isnil f0 then A else
+               let A1 := bump A (match hi with Some h => oz (upper A h) | None => oz (upper A lo) end) in
+               match hi, upper A lo with Some (EVar x), Some u => add_fact A1 (FLo x u) | _, _ => A1 end), f0)
     | SAlloc site n esz =>
         (Some A, expr_fails A site n ++ req (nonneg A n) (site, 3, 0, oz (lower A n)))
     | SAllocObj => (Some A, [])
@@ -271,12 +309,12 @@ Section Check.
         | Some A1 => let r2 := chkb cur r A1 in (fst r2, snd r1 ++ snd r2)
         end
     end
-  with chkc (cur : option Z) (cs : cases) (A : astate) {struct cs} : option astate * list fail :=
+  with chkc (cur : option Z) (e : expr) (cs : cases) (A : astate) {struct cs} : option astate * list fail :=
     match cs with
     | CNil => (None, [])
-    | CCons _ b r =>
-        let r1 := chkb cur b A in
-        let r2 := chkc cur r A in
+    | CCons v b r =>
+        let r1 := chkb cur b (learn_case A e v) in
+        let r2 := chkc cur e r A in
         (join (fst r1) (fst r2), snd r1 ++ snd r2)
     end.
 
